@@ -197,6 +197,7 @@ struct Exec {
     file_content: Vec<u8>,
     viol: Vec<(String, String)>,
     exhausted_seen: bool,
+    census_skipped: bool,
     held_across_completion: bool,
     drv: &'static str,
 }
@@ -492,7 +493,11 @@ impl Exec {
         }
         // operations that were let go still own their buffers until they have really ended;
         // thread-pool jobs may not even have started yet
-        crate::drv::soup::wait_pool_jobs(Duration::from_millis(1500));
+        if !crate::drv::soup::wait_pool_jobs(Duration::from_millis(3000)) {
+            // let-go pool jobs still own their buffers: the census cannot be taken
+            self.census_skipped = true;
+            return;
+        }
         for _ in 0..2 {
             self.poll(5);
         }
@@ -616,6 +621,7 @@ fn run_prog(p: &Prog, canary: bool) -> Result<Outcome, String> {
         file_content,
         viol: Vec::new(),
         exhausted_seen: false,
+        census_skipped: false,
         held_across_completion: false,
         drv: p.driver,
     };
@@ -689,6 +695,13 @@ fn run_prog(p: &Prog, canary: bool) -> Result<Outcome, String> {
         alloc::release_all();
     }
     let names = verif::type_names();
+    let pool_quiet = {
+        let had_pool_jobs = events.iter().any(|e| e.kind == verif::Kind::Submit && e.b == 2);
+        let news: std::collections::HashSet<u64> = events.iter().filter(|e| e.kind == verif::Kind::OpNew).map(|e| e.a).collect();
+        let frees = events.iter().filter(|e| e.kind == verif::Kind::OpFree && news.contains(&e.a)).count();
+        // a release still pending on a pool thread: leak rules cannot be decided
+        pool_quiet && !(frees < news.len() && had_pool_jobs)
+    };
     let sum = check::check_log(&events, &names, pool_quiet);
     let mut viol = std::mem::take(&mut ex.viol);
     for f in &sum.findings {
@@ -708,6 +721,9 @@ fn run_prog(p: &Prog, canary: bool) -> Result<Outcome, String> {
         if ex.exhausted_seen { "exhausted" } else { "-" },
         if dropped { "proactor-dropped" } else { "census" },
     );
+    if ex.census_skipped {
+        return Err("pool jobs still running after 3 s: census skipped".into());
+    }
     Ok(Outcome {
         viol,
         sig,
